@@ -1,6 +1,7 @@
 #!/bin/bash
 # usage: tools/seedrun.sh <property> <patch> [tier]   — applies the patch to /repo, runs the check, reverts
 prop=$1; patch=$2; tier=${3:-quick}
+exec 9>/tmp/verif-repo.lock; flock 9; export VERIF_LOCK_HELD=1
 cd /repo || exit 3
 git diff --quiet || { echo "repo dirty"; exit 3; }
 git apply "$patch" || { echo "PATCH-DOES-NOT-APPLY"; exit 3; }
